@@ -99,6 +99,44 @@ def agg(r, g, ms):
     return {"s": "agg", "r": r, "g": g, "ms": list(ms)}
 
 
+def arrbin(rs, op, as_, b):
+    """StairsArray(as_) <op> b, b = {"regs": [...]} | {"reg": n} | {"const": v}; results bound to rs"""
+    return {"s": "arrbin", "rs": list(rs), "op": op, "as": list(as_), "b": b}
+
+
+def arrtable(regs, kind, xs, side="right"):
+    return {"s": "arrtable", "regs": list(regs), "kind": kind, "xs": [fr(x) for x in xs], "side": side}
+
+
+def arrcov(regs, kind, lo, hi):
+    return {"s": "arrcov", "regs": list(regs), "kind": kind, "lo": fr(lo), "hi": fr(hi)}
+
+
+def expand(prog):
+    """compound (collection-level) statements as the per-member statements they must equal"""
+    out = []
+    for s in prog:
+        k = s["s"]
+        if k == "arrbin":
+            for i, (r, a) in enumerate(zip(s["rs"], s["as"])):
+                b = s["b"]
+                barg = reg(b["regs"][i]) if "regs" in b else (reg(b["reg"]) if "reg" in b else cst(b["const"]))
+                out.append(bin_(r, s["op"], reg(a), barg))
+        elif k == "arrtable":
+            for r in s["regs"]:
+                out.append(query(r, "sample", xs=s["xs"]) if s["kind"] == "sample" else query(r, "limit", side=s["side"], xs=s["xs"]))
+        elif k == "arrcov":
+            n = len(s["regs"])
+            for i in range(n):
+                for j in range(n):
+                    if s["kind"] == "corr" and i == j:
+                        continue
+                    out.append(query(s["regs"][i], s["kind"], b=s["regs"][j], lo=s["lo"], hi=s["hi"]))
+        else:
+            out.append(s)
+    return out
+
+
 ARITH = ["add", "sub", "mul", "div"]
 REL = ["lt", "le", "gt", "ge", "eq", "ne"]
 LOG = ["and", "or", "xor"]
